@@ -825,5 +825,15 @@ Definition dispatch (c : mcfg) (line : list tok) : list tok :=
       end end end end end end
   end.
 
+(* `na <op ..>` (C18): the number of heap allocations inside the library calls of <op ..>, then its
+   output.  The model has no heap: for the core operations the specified count is 0 in every
+   configuration; what the model contributes is the expected output of the wrapped operation, so
+   that the counted calls are known to have run and returned the right values. *)
+Definition dispatch_na (c : mcfg) (line : list tok) : list tok :=
+  match line with
+  | op :: rest => if is_sym op "na" then TN 0 :: sep :: dispatch c rest else dispatch c line
+  | [] => dispatch c line
+  end.
+
 Definition dispatch_flags (fl : list N) (line : list tok) : list tok :=
-  dispatch (cfg_of_flags fl) line.
+  dispatch_na (cfg_of_flags fl) line.
